@@ -9,6 +9,9 @@ TNext == l <= Len(Tr) /\ l' = l + 1
 Report ==
   IF l > Len(Tr) THEN PrintT("VERDICT " \o ToJson([done |-> Len(Tr)]))
   ELSE LET e == Tr[l] IN
+       \* a program of uninterpreted instruction lines: obs is the real assembly of P, ref that of GenMacro's Expand(P)
+       IF "ref" \in DOMAIN e THEN (e.obs = e.ref \/ PrintT("VERDICT " \o ToJson([id |-> e.id, why |-> "the program and its expansion by hand assemble differently"])))
+       ELSE
        Transparent(e.prog, e.bpa, e.big, e.obs) \/
        PrintT("VERDICT " \o ToJson([id |-> e.id, why |-> IF Redef(e.prog) THEN "a name defined twice was accepted" ELSE Why(Expand(e.prog), e.bpa, e.big, e.obs)]))
 =============================================================================
